@@ -944,8 +944,14 @@ func (e *eng) Exec(op []string) string {
 		if m == nil {
 			return "nomock"
 		}
-		if !m.Release(common.Atoi(op[2])) {
+		kind, ok := m.ReleaseKind(common.Atoi(op[2]))
+		if !ok {
 			return "none"
+		}
+		if kind != "change" {
+			// only changes are announced by detached goroutines (P17); anything else parked here was
+			// announced outside the critical section that orders joins and leaves
+			return e.observe("ok:" + kind)
 		}
 		return e.observe("ok")
 	case "probe":
